@@ -59,6 +59,14 @@ def first_difference(a, b, path=""):
     return f"{path}: {str(a)[:80]} != {str(b)[:80]}"
 
 
+@h.paramclass
+class FalsyParams:
+    m = h.Param(dtype=int, desc="m", default=1)
+    nrd = h.Param(dtype=float, desc="nrd", default=1.0)
+    opts = h.Param(dtype=str, desc="opts", default="x")
+    w = h.Param(dtype=int, desc="w", default=1)
+
+
 def param_space_packages(rng, n):
     """Primitives and external modules over the parameter space (prefixed numbers, literals, ints, floats, enums), literals."""
     from hdl21.prefix import Prefix, Prefixed
@@ -80,9 +88,18 @@ def param_space_packages(rng, n):
                              paramtype=dict, spicetype=rng.choice(list(SpiceType)))
         m.bus = h.Signal(width=3)
         m.x = E({"s": "str", "n": 4, "f": 0.25, "p": val, "l": h.Literal("lit")})(i=m.bus[0:2], o=m.bus[2], p=h.Concat(m.a)[0])
+        # falsy but meaningful values (0, 0.0, the empty string) on a param-class typed external module
+        E2 = h.ExternalModule(name=f"ExtF{k % 2}", port_list=[h.Port(name="p"), h.Port(name="n")], paramtype=FalsyParams)
+        m.y = E2(FalsyParams(m=rng.choice([0, 2]), nrd=rng.choice([0.0, 0.5]), opts=rng.choice(["", "o"]), w=rng.choice([0, 1])))(p=m.a, n=m.b)
         m.literals.append(h.Literal(f".param k={k}"))
         m.literals.append(h.Literal("* second literal"))
         out.append((f"params:{k}", m))
+    # modules defined outside any Python module (exec-ed source with fresh globals, as in a notebook cell or `python -c`)
+    src = ("import hdl21 as h\n@h.module\nclass LeafX:\n    a = h.Port()\n    r = h.R(r=1)(p=a, n=a)\n"
+           "@h.module\nclass TopX:\n    s = h.Signal()\n    l = LeafX(a=s)\n")
+    g = {}
+    exec(src, g)
+    out.append(("exec:no-import-path", g["TopX"]))
     return out
 
 
